@@ -24,7 +24,7 @@ FromLog(r) ==
 TraceInit ==
   /\ Trace[1].ev.name = "Init"
   /\ st = FromLog(Trace[1].st) /\ pre = FromLog(Trace[1].st)
-  /\ ev = Trace[1].ev /\ gh = GhostInit /\ ghPre = GhostInit /\ hist = <<>>
+  /\ ev = Trace[1].ev /\ gh = GhostInitOf(FromLog(Trace[1].st)) /\ ghPre = GhostInitOf(FromLog(Trace[1].st)) /\ hist = <<>>
   /\ l = 2 /\ drift = 0 /\ driftAt = 0
 
 Predicted(s, e) ==
@@ -38,7 +38,7 @@ TraceNext ==
          t == FromLog(Trace[l].st)
      IN /\ ev' = e /\ st' = t
         /\ IF e.name = "Init"
-           THEN /\ gh' = GhostInit /\ ghPre' = GhostInit /\ pre' = t
+           THEN /\ gh' = GhostInitOf(t) /\ ghPre' = GhostInitOf(t) /\ pre' = t
                 /\ UNCHANGED <<drift, driftAt>>
            ELSE /\ gh' = GhostStep(gh, st, e, t) /\ ghPre' = gh /\ pre' = st
                 /\ LET d == Predicted(st, e) # Observed(e, t) IN
@@ -64,7 +64,21 @@ Clauses ==
    C02_Supply |-> C02_Supply(pre, ev, st),
    C02_Conservation |-> C02_Conservation(st),
    Rejected_NoEffect |-> Rejected_NoEffect(pre, ev, st),
+   \* history twins: the same clauses with the registry / parameters according to the history
+   C01_ShareValueH |-> C01_ShareValueH(pre, ev, st, ghPre, gh),
+   C01_LegRuleH |-> C01_LegRuleH(pre, ev, st, ghPre, gh),
+   C01_ExactInMaxH |-> C01_ExactInMaxH(pre, ev, st, ghPre, gh),
+   C01_ExactOutTightH |-> C01_ExactOutTightH(pre, ev, st, ghPre, gh),
+   C02_SwapSenderH |-> C02_SwapSenderH(pre, ev, st, ghPre, gh),
+   C02_SwapRecipientH |-> C02_SwapRecipientH(pre, ev, st, ghPre, gh),
+   C02_BoundsH |-> C02_BoundsH(pre, ev, st, ghPre, gh),
+   C02_FrameH |-> C02_FrameH(pre, ev, st, ghPre, gh),
+   C02_AddTakesAtMostH |-> C02_AddTakesAtMostH(pre, ev, st, ghPre, gh),
+   C02_RemoveGivesAtLeastH |-> C02_RemoveGivesAtLeastH(pre, ev, st, ghPre, gh),
+   C02_SupplyH |-> C02_SupplyH(pre, ev, st, ghPre, gh),
+   C02_PoolFresh |-> C02_PoolFresh(pre, ev, st, ghPre, gh),
    \* diagnostics (never a verdict)
+   X02_RegistryStable |-> X02_RegistryStable(st, gh),
    X01_PoolNotWedged |-> X01_PoolNotWedged(st),
    X01_WedgedForever |-> X01_WedgedForever(pre, ev, st),
    X01_AddNeverLockedOut |-> X01_AddNeverLockedOut(pre, ev),
